@@ -459,4 +459,133 @@ func main() {
 	fmt.Println(f3(1))
 }
 `, feats: map[string]bool{"named-result-return-in-var-loop": true}},
+	{src: `func find(xs []int, k int) int {
+	for i, v := range xs {
+		if v == k {
+			return i
+		}
+	}
+	return -1
+}
+
+func has(xs []int, k int) bool {
+	for _, v := range xs {
+		if v == k {
+			return true
+		}
+	}
+	return false
+}
+
+func main() {
+	s := []int{5, 6, 7}
+	for _, v := range s {
+		fmt.Println("v", v, find(s, v))
+	}
+	for _, v := range s {
+		fmt.Println("h", v, has(s, 6))
+	}
+	fmt.Println("done")
+}
+`, feats: map[string]bool{c01ClsRangeLeak: true}},
+	{src: `func main() {
+	x := 10
+	for i := 0; i < 3; i++ {
+		y := x + i
+		x := y * 2
+		fmt.Println(x, y)
+	}
+	fmt.Println(x)
+	for i := 0; i < 3; i++ {
+		x := x + i
+		fmt.Println(x)
+	}
+	s := []int{1, 2}
+	for _, v := range s {
+		if v > 1 {
+			fmt.Println("in", x)
+		}
+		x := v * 3
+		fmt.Println(x)
+	}
+	fmt.Println(x)
+}
+`, feats: map[string]bool{c01ClsLoopShadow: true}},
+	{src: `type In struct {
+	x int
+}
+
+type Out struct {
+	in In
+	n  int
+}
+
+func main() {
+	a := Out{in: In{x: 1}, n: 2}
+	s := []Out{a}
+	a.n = 99
+	a.in.x = 77
+	fmt.Println(s[0].n, s[0].in.x, a.n, a.in.x)
+}
+`, feats: map[string]bool{c01ClsStructCopy + "slice-literal": true}}, // = c01StructFeats(src)
+	{src: `type In struct {
+	x int
+}
+
+type Out struct {
+	in In
+	n  int
+}
+
+func main() {
+	t := []Out{Out{in: In{x: 1}, n: 2}, Out{in: In{x: 3}, n: 4}}
+	for _, e := range t {
+		e.in.x = 5
+		e.n = 6
+	}
+	fmt.Println(t[0].n, t[0].in.x, t[1].n, t[1].in.x)
+}
+`, feats: map[string]bool{c01ClsStructCopy + "range-slice": true}}, // = c01StructFeats(src)
+	{src: `func main() {
+	x := 5
+	f := func(a int) int {
+		fmt.Println("x in f", x)
+		return a + x
+	}
+	for i := 0; i < 2; i++ {
+		fmt.Println("o", x)
+		x := x + 100
+		fmt.Println(f(1), x)
+	}
+	if x > 0 {
+		x := 1000
+		fmt.Println(f(2), x)
+	}
+}
+`, feats: map[string]bool{c01ClsCloShadow: true, c01ClsLoopShadow: true}},
+	{src: `func main() {
+	v := -3
+	fmt.Println(uint(v), uint(v) >= 9223372036854775806, uint(v) > 5, uint(v) >= 2147483648, 2147483648 < uint(v))
+	var w uint = 5
+	w -= 8
+	fmt.Println(w, w >= 4294967296, w < 4294967296, w > 5, w == 4294967296)
+}
+`, feats: map[string]bool{c01ClsUintWide: true}},
+	{src: `func pair(xs []int, k int) int {
+	for i, v := range xs {
+		for _, w := range xs {
+			if v+w == k {
+				return i * 6
+			}
+		}
+	}
+	return 7
+}
+
+func main() {
+	s := []int{1, 2}
+	fmt.Println("s", pair(s, 3))
+	fmt.Println("s", pair(s, 9))
+}
+`, feats: map[string]bool{c01ClsNestedRangeRet: true}},
 }
